@@ -85,6 +85,14 @@ func semCfgFull() *mrogen.ProgCfg {
 
 var caseSeq int
 
+// C11 mode: semCase records its case under C11 with these classes.
+var (
+	c11Extra      []string
+	c11Nontrivial bool
+	chunkChoices  []int
+	arrayLens     []int
+)
+
 // strictMode: C07 part A - run with the strictest enforcement level and
 // validate every delivered argument against its parameter type.
 var strictMode bool
@@ -403,7 +411,7 @@ func semCase(t *rapid.T, root string, prog *mrogen.Program) {
 		if strictMode {
 			nullChoices = []int{0, 5, 20}
 		}
-		opts := simrun.Options{StageOpts: stagefn.Opts{NullPct: rapid.SampledFrom(nullChoices).Draw(t, "outNullPct")}}
+		opts := simrun.Options{StageOpts: stagefn.Opts{NullPct: rapid.SampledFrom(nullChoices).Draw(t, "outNullPct"), ChunkChoices: chunkChoices, ArrayLens: arrayLens}}
 		model := refsem.Eval(prog, &opts.StageOpts)
 		if model.Unsupported != "" {
 			stats.Count("C01", "model_declined:"+model.Unsupported, 1)
@@ -511,6 +519,11 @@ func semCase(t *rapid.T, root string, prog *mrogen.Program) {
 		digest := stats.Digest(src, strings.Join(rc.history, "|"))
 		sample := func() any {
 			return map[string]any{"program": stats.Trunc(src, 1500), "jobs": njobs, "features": classes, "schedule": stats.Trunc(strings.Join(rc.history, "; "), 600)}
+		}
+		if c11Extra != nil {
+			stats.Case("C11", c11Nontrivial, digest, c11Extra, sample)
+			c11Extra = nil
+			return
 		}
 		if strictMode {
 			conv := f["projection"] + f["sub-pipeline"] + f["map-call:array"] + f["map-call:map"]
